@@ -26,6 +26,16 @@ def run(repo, chk):
     rule_g(repo, chk)
     rule_h(repo, chk)
     rule_rejected(repo, chk)
+    rule_complete(repo, chk)
+
+
+def rule_complete(repo, chk):
+    """`_on_read` dispatches the request as soon as the parser says the message is complete and drops the parser: a parser that says so too early makes the rest of
+    the message look like a new (malformed) request — a second response on a connection that was sent one well-formed message."""
+    chk.rule('C14.j', 'the parser reports a chunked message complete only after its last chunk (the chunk step never returns the "last chunk" answer for a data chunk): the '
+                      'accounting decided for C13.b')
+    n = chk.adopt('j', 'C13', repo, lambda o: o.rule == 'C13.b' and o.discr.split(':')[0].startswith('chunk-'))
+    need(n >= 1, f'C14.j: only {n} chunk-step obligations of the body parser found')
 
 
 def _run(repo, chk):
